@@ -55,6 +55,7 @@ type unit struct {
 
 type family struct {
 	name    string
+	group   string // families that explore the same fragment space at different bounds share a group (default: name)
 	doc     string
 	imports []string
 	prelude string
@@ -196,7 +197,9 @@ func goEnv() []string {
 
 // runGo compiles and runs src with the Go toolchain (module with `go 1.25.9`: per-iteration loop variables, like Gno).
 // The output depends only on src and the toolchain, so it is cached by content hash under .work/c04/cache.
-func runGo(name, src string) (string, error) {
+func runGo(name, src string) (string, error) { return runGoT(name, src, 5*time.Minute) }
+
+func runGoT(name, src string, timeout time.Duration) (string, error) {
 	goEnvOnce.Do(func() {
 		cmd := exec.Command("go", "version")
 		cmd.Dir = vk.Root
@@ -235,7 +238,7 @@ func runGo(name, src string) (string, error) {
 	go func() { done <- run.Wait() }()
 	select {
 	case <-done:
-	case <-time.After(5 * time.Minute):
+	case <-time.After(timeout):
 		run.Process.Kill()
 		return "", fmt.Errorf("go program of family %s timed out", name)
 	}
@@ -399,31 +402,12 @@ func checkFamily(g *gnoRunner, f *family) famStats {
 	t0 = time.Now()
 	gnoUnits, bad, fatal := runGnoResilient(g, f, sel)
 	if len(bad) > 0 {
-		// group by error signature: one finding per (family, signature)
-		bySig := map[string][]badUnit{}
-		var order []string
-		for _, b := range bad {
-			sg := errSignature(b.err)
-			if _, ok := bySig[sg]; !ok {
-				order = append(order, sg)
-			}
-			bySig[sg] = append(bySig[sg], b)
-		}
 		badSet := map[int]bool{}
-		for _, sg := range order {
-			var keys []string
-			for _, b := range bySig[sg] {
-				badSet[b.idx] = true
-				st.failingUnits++
-				if len(keys) < 25 {
-					keys = append(keys, f.units[b.idx].key)
-				}
-			}
-			first := bySig[sg][0]
-			r.Violation(fmt.Sprintf("%s: gno fails on programs Go runs: %s", f.name, sg),
-				map[string]any{"family": f.name, "signature": sg, "units": keys, "n_units": len(bySig[sg]), "gno_error": tail(first.err, 1500),
-					"go_output_head": head(goUnits[first.idx], 5), "program": f.program([]int{first.idx})})
-			r.OutcomeN(f.name+".gno_fails", int64(len(bySig[sg])))
+		for _, b := range bad {
+			badSet[b.idx] = true
+			st.failingUnits++
+			addFinding(finding{fam: f, unit: b.idx, class: "gno-" + b.phase, cause: normCause(b.err), gnoErr: b.err, goHead: head(goUnits[b.idx], 5)})
+			r.OutcomeN(f.name+".gno_fails", 1)
 		}
 		var rest []int
 		for _, i := range sel {
@@ -434,14 +418,13 @@ func checkFamily(g *gnoRunner, f *family) famStats {
 		sel = rest
 	}
 	if fatal != "" {
-		r.Violation(fmt.Sprintf("%s: gno keeps failing after isolating %d units", f.name, len(bad)), map[string]any{"family": f.name, "gno_error": tail(fatal, 1500)})
+		r.Violation(fmt.Sprintf("%s:gno-fails-unisolated:%s|min=(not isolated after removing %d units)", f.groupName(), normCause(fatal), len(bad)), map[string]any{"family": f.name, "gno_error": tail(fatal, 1500)})
 		return st
 	}
 	st.gnoMs = time.Since(t0).Milliseconds()
 
 	for _, i := range sel {
 		gl, nl := goUnits[i], gnoUnits[i]
-		u := f.units[i]
 		nbad := 0
 		first := ""
 		n := len(gl)
@@ -477,9 +460,7 @@ func checkFamily(g *gnoRunner, f *family) famStats {
 				nbad++
 				if first == "" {
 					first = fmt.Sprintf("line %d: go=%q gno=%q", k, a, b)
-					r.Violation(fmt.Sprintf("%s/%s: %s", f.name, u.key, caseLabel(a, b)),
-						map[string]any{"family": f.name, "unit": u.key, "first_diff": first, "go_line": a, "gno_line": b,
-							"program": f.program([]int{i})})
+					addFinding(finding{fam: f, unit: i, class: "output-differs", cause: caseLabel(a, b), goLine: a, gnoLine: b, firstDiff: first})
 				}
 			}
 		}
@@ -492,7 +473,8 @@ func checkFamily(g *gnoRunner, f *family) famStats {
 	return st
 }
 
-// caseLabel: the stable part of a differing line = everything up to the first field that differs.
+// caseLabel: the stable part of a differing line = everything up to the first field that differs, and what Go prints
+// there (the wrong Gno value is in the replay artefact, not in the key: it may depend on unrelated state).
 func caseLabel(a, b string) string {
 	fa, fb := strings.Fields(a), strings.Fields(b)
 	var keep []string
@@ -503,7 +485,7 @@ func caseLabel(a, b string) string {
 	if lbl == "" {
 		lbl = "(first line)"
 	}
-	return lbl + " => go:" + rest(fa, len(keep)) + " gno:" + rest(fb, len(keep))
+	return lbl + " => go:" + rest(fa, len(keep))
 }
 
 func rest(f []string, n int) string {
@@ -525,8 +507,9 @@ func head(s []string, n int) []string {
 }
 
 type badUnit struct {
-	idx int
-	err string
+	idx   int
+	err   string
+	phase string // "rejects": refused before running anything (parse/preprocess); "crashes": the VM died while running the unit
 }
 
 var posRe = regexp.MustCompile(`[\w/]+\.gno:\d+(:\d+)?(-\d+(:\d+)?)?:?\s*`)
@@ -634,7 +617,11 @@ func runGnoChunk(g *gnoRunner, f *family, sel []int, units map[int][]string, nba
 			}
 			remaining = next
 		}
-		bad = append(bad, badUnit{culprit, perr})
+		phase := "rejects"
+		if len(blocks) > 0 {
+			phase = "crashes"
+		}
+		bad = append(bad, badUnit{culprit, perr, phase})
 	}
 	return
 }
@@ -735,6 +722,7 @@ func main() {
 		}()
 	}
 	wg.Wait()
+	reportFindings()
 	totalUnits, totalLines := 0, 0
 	var famSummary []map[string]any
 	for _, x := range results {
